@@ -12,10 +12,12 @@ ID = "C10"
 LEVEL = "exploration"
 RULE = ("a per-shard universe (honestly mined block tree: trunk of 30, a fork 22 deep from height 5 -- beyond the locator's dense "
         "range --, a longer recent fork, a fork of a fork, spends in ~half of the blocks); per case 2-3 nodes each starting from "
-        "the ancestor closure of 1-2 drawn tips inserted in a drawn order, a drawn connected dial topology, inventory batch size "
+        "the ancestor closure of 1-2 drawn tips inserted in a drawn order, a drawn connected dial topology (in a quarter of the "
+        "cases a line low--mid--high whose ends cannot reach each other directly), inventory batch size "
         "drawn from {500, 3, 4}, and a Hypothesis-drawn schedule over connection establishment, byte arrival (fragmented), reads, "
-        "partial writes and manager steps with drawn clock advances, under four scheduling disciplines (uniform, priority with "
-        "change points, run-to-completion, starvation of one source); then a fair suffix (every node stepped, everything drained, "
+        "partial writes and manager steps with drawn clock advances, under five scheduling disciplines (uniform, priority with "
+        "change points, run-to-completion, starvation of one source, staged: two nodes synchronise completely before the third "
+        "takes part); then a fair suffix (every node stepped, everything drained, "
         "clock +61 s) until nothing changes. Optionally, once all heads are equal, a freshly mined block is announced by one "
         "node and a valid transaction is broadcast by one node under a drawn schedule. Oracle at quiescence: every node's head "
         "height == max initial height; every node stores the complete chain of its head; the transaction is in every pool; per "
@@ -126,6 +128,16 @@ class Sim:
         for a, b_ in case["topo"]:
             peers = self.nodes[a].nm.disconnected_peers
             peers.update(RP.load_peers_from_list([(self.nodes[b_].host, 2412, RP.OUTGOING)]))
+        blocked = {(self.nodes[x].host, self.nodes[y].host) for x, y in case.get("blocked", [])}
+        if blocked:
+            orig_do = self.net.do
+
+            def do(ev, arg=None):
+                if ev[0] == "connect" and (ev[1].node.host, ev[1].remote_addr[0]) in blocked:
+                    arg = "refuse"
+                return orig_do(ev, arg)
+
+            self.net.do = do
         self.fails = []
         self.handled = 0
         self.sent = {}          # (node name, connection id, item id) -> count of unsolicited data messages (injections excluded)
@@ -165,10 +177,34 @@ class Sim:
     def source(self, e):
         return (e[0], e[1].node.name if hasattr(e[1], "node") and e[1].node else "?", e[1].id)
 
+    def staged(self):
+        """two nodes synchronise completely (several fair rounds among themselves) before the third takes part at all"""
+        rnd, net = self.rnd, self.net
+        if len(self.nodes) < 3:
+            return
+        pair = rnd.sample(self.nodes, 2)
+        if self.case.get("staged_pair"):
+            pair = [self.nodes[i] for i in self.case["staged_pair"]]
+        hosts = {n.host for n in pair}
+        for _ in range(rnd.choice([2, 3, 5])):
+            for n in pair:
+                net.step(n)
+            for _k in range(200_000):
+                evs = [e for e in net.enabled(only=pair) if e[0] != "connect" or (e[1].node in pair and e[1].remote_addr[0] in hosts)]
+                if not evs:
+                    break
+                e = evs[rnd.randrange(len(evs))]
+                net.do(e, rnd.choice([None, None, 100, 1024]) if e[0] == "arrive" else None)
+                self.stats["events"] += 1
+            self.simnet.CLOCK.now += 61
+
     def scheduled(self, n_events):
-        """drawn prefix of the schedule under one of four disciplines"""
+        """drawn prefix of the schedule under one of five disciplines"""
         rnd, net = self.rnd, self.net
         mode = self.case["discipline"]
+        if mode == "staged":
+            self.staged()
+            mode = "uniform"
         prio = {}
         starve = None
         for step in range(n_events):
@@ -397,6 +433,24 @@ class Sim:
 
 
 def gen_case(rnd, u):
+    if rnd.random() < 0.25:
+        # family "chain of three": low (on a deep side fork) -- mid -- high in a line; low and mid synchronise first, mid
+        # learns the rest from high only afterwards (what mid downloads is not relayed: low must come back and ask)
+        low = rnd.choice(["d15", "d15", "e24", "d27", "t5", "g"])
+        mid = rnd.choice(["t20", "t20", "t12", "t30"])
+        high = rnd.choice(["t30", "r31", "r31", "r30"])
+        order = [0, 1, 2]
+        rnd.shuffle(order)                                   # which node index plays which role
+        tips = [None, None, None]
+        tips[order[0]], tips[order[1]], tips[order[2]] = [low], [mid], [high]
+        a, b_, c = order
+        topo = rnd.choice([[(a, b_), (b_, c)], [(b_, a), (c, b_)], [(a, b_), (c, b_)], [(b_, a), (b_, c)]])
+        case = {"tips": tips, "topo": [list(x) for x in topo], "batch": rnd.choice([500, 3, 4]), "sched_seed": rnd.randrange(1 << 30),
+                "discipline": "staged", "staged_pair": [a, b_], "n_events": rnd.choice([0, 50, 300]), "clock_off": rnd.choice([0, 7, 59]),
+                "started_ago": rnd.choice([0, 30, 10_000]), "family": "chain_of_three"}
+        if rnd.random() < 0.7:
+            case["blocked"] = [[a, c], [c, a]]               # low and high cannot reach each other directly (NAT / firewall)
+        return case
     n = rnd.choice([2, 2, 3, 3, 3])
     tips = []
     for _ in range(n):
@@ -404,7 +458,7 @@ def gen_case(rnd, u):
         tips.append([u.tips[rnd.randrange(len(u.tips))] for _ in range(k)])
     topo = rnd.choice(TOPOS2 if n == 2 else TOPOS3)
     case = {"tips": tips, "topo": [list(x) for x in topo], "batch": rnd.choice([500, 3, 4, 3]), "sched_seed": rnd.randrange(1 << 30),
-            "discipline": rnd.choice(["uniform", "priority", "run_to_completion", "starvation"]), "n_events": rnd.choice([0, 50, 300, 1500]),
+            "discipline": rnd.choice(["uniform", "priority", "run_to_completion", "starvation", "staged", "staged"]), "n_events": rnd.choice([0, 50, 300, 1500]),
             "clock_off": rnd.choice([0, 7, 59]), "started_ago": rnd.choice([0, 30, 10_000])}
     if rnd.random() < 0.5:
         case["relay"] = {"block_from": rnd.randrange(3), "tx_from": rnd.randrange(3), "tx_pick": rnd.randrange(50), "n_events": rnd.choice([0, 100, 600])}
@@ -446,6 +500,7 @@ def run(shard, tier, seed):
         res.count("fair_rounds", sim.stats["fair_rounds"])
         res.count("protocol_messages_handled", sim.handled)
         res.count("discipline:" + case["discipline"])
+        res.count("family:" + case.get("family", "free"))
         res.count("batch:%d" % case["batch"])
         res.count("nodes:%d" % len(case["tips"]))
         res.extra["max_protocol_messages_in_one_drain"] = max(res.extra.get("max_protocol_messages_in_one_drain", 0), sim.stats.get("max_handled_in_a_drain", 0))
